@@ -107,15 +107,21 @@ def build(ast, memo=None):
         elif k == "Not":
             r = pg.Not(ch[0])
         elif k == "CcAny":
-            r = cc.Any(*ch, default=ast.get("default"), variable=var)
+            r = cc.Any(*ch, default=build_default(ast), variable=var)
         elif k == "CcXor":
-            r = cc.Xor(*ch, default=ast.get("default"), variable=var)
+            r = cc.Xor(*ch, default=build_default(ast), variable=var)
         elif k == "Stingy":
             r = cc.StingyConfigurator(*ch, id=var)
         else:
             raise ValueError(k)
     memo[key] = r
     return r
+
+def build_default(ast):
+    d = ast.get("default")
+    if d is None:
+        return None
+    return [x if isinstance(x, str) else puan.variable(x["id"], tuple(x["b"])) for x in d]
 
 def ast_json(ast):
     """JSON-serialisable copy of an AST (sharing is expanded)."""
@@ -479,3 +485,58 @@ def ast_sem(ast, env):
     if k == "Imply": return int((not vals[0]) or vals[1])
     if k == "Not": return int(not vals[0])
     raise ValueError(k)
+
+
+# ----------------------------------------------------------------------------- configurators
+class ConfigGen:
+    """configurator ASTs: StingyConfigurator over rules built from cc.Any / cc.Xor (with and without defaults),
+    plain Any/Xor/AtMost/All/AtLeast and Imply rules, over boolean items"""
+    def __init__(self, rng, nleaf=None, explicit=0.6):
+        self.rng = rng
+        self.items = list("abcdefgh")[: (nleaf or rng.randint(4, 7))]
+        self.cnt = 0
+        self.explicit = explicit
+    def fresh(self, force=False):
+        self.cnt += 1
+        return f"R{self.cnt}" if (force or self.rng.random() < self.explicit) else None
+    def leaf(self, nm):
+        return {"k": "str", "id": nm} if self.rng.random() < 0.6 else {"k": "var", "id": nm, "b": [0, 1]}
+    def leaves(self, kmin=2, kmax=4):
+        k = self.rng.randint(kmin, min(kmax, len(self.items)))
+        return [self.leaf(n) for n in self.rng.sample(self.items, k)]
+    def simple(self, force_id=False):
+        rng = self.rng
+        kind = rng.choice(["CcAny", "CcAny", "CcXor", "CcXor", "Any", "Xor", "AtMost", "All", "AtLeast"])
+        ch = self.leaves(1 if kind in ("All", "AtLeast") else 2)
+        r = {"k": kind, "ch": ch, "id": self.fresh(force_id)}
+        if kind in ("CcAny", "CcXor"):
+            q = rng.random()
+            if q < 0.65:
+                d = rng.choice(ch)["id"]
+                r["default"] = [d if rng.random() < 0.7 else {"id": d, "b": [0, 1]}]
+            elif q < 0.75:
+                r["default"] = [rng.choice(self.items)]
+            elif q < 0.85:
+                r["default"] = []
+        if kind == "AtMost":
+            r["v"] = rng.randint(1, 2)
+        if kind == "AtLeast":
+            r["v"] = rng.randint(1, 2); r["s"] = None
+        return r
+    def rule(self, force_id=False):
+        rng = self.rng
+        if rng.random() < 0.25:
+            cond = self.leaf(rng.choice(self.items)) if rng.random() < 0.5 else {"k": rng.choice(["All", "Any"]), "ch": self.leaves(1, 3), "id": None}
+            cons = self.simple() if rng.random() < 0.7 else self.leaf(rng.choice(self.items))
+            return {"k": "Imply", "ch": [cond, cons], "id": self.fresh(force_id)}
+        return self.simple(force_id)
+    def config(self, nrules=None, cid="auto"):
+        n = nrules or self.rng.randint(1, 4)
+        rules = [self.rule() for _ in range(n)]
+        return {"k": "Stingy", "ch": rules, "id": (self.rng.choice(["cfg", None]) if cid == "auto" else cid)}
+
+def full_dump(p):
+    """structural text incl. classes, generated flags, defaults and prio tags (for equality of whole objects)"""
+    from common import Interner
+    it = Interner(minlen=10**9)
+    return dump(p, it)
